@@ -226,7 +226,11 @@ func Worker(t *testing.T, worldName, profile, property, tier string, base uint64
 			seen[v.Class()] = fv
 			if len(seen) <= 4 && !knownClass(v.Class()) {
 				rp := minimise(t, w, worldName, profile, sc, cfg, out, v, seed, idx)
-				path := fmt.Sprintf("%s/%s-%d-%d-%s.json", replayDir, v.Property, base, idx, sanitize(v.Rule))
+				name := sanitize(v.Rule)
+				if v.Sig != v.Rule {
+					name += "-" + clipName(sanitize(v.Sig), 60) // two classes of one rule in one run must not share a file
+				}
+				path := fmt.Sprintf("%s/%s-%d-%d-%s.json", replayDir, v.Property, base, idx, name)
 				writeReplay(path, rp)
 				fv.Replay = path
 				fv.Minimised = true
@@ -314,6 +318,13 @@ func hasClass(out *Outcome, property, class string) *Violation {
 }
 
 // minimise shrinks the scenario, then the decision list, keeping the same violation class
+func clipName(s string, n int) string {
+	if len(s) > n {
+		return s[len(s)-n:]
+	}
+	return s
+}
+
 func minimise(t *testing.T, w World, worldName, profile string, sc any, cfg simrt.Config, out *Outcome, v Violation, seed uint64, idx int) *Replay {
 	class := v.Class()
 	prop := v.Property
